@@ -470,7 +470,7 @@ func registerReflect(p *Program) {
 				if m.Branch(m.nodeTagIn(rv.N, TagString), "reflect.String.tag") {
 					return &AStr{rv.N.Str}
 				}
-				unsupported("String() of a symbolic json.Number")
+				return &AStr{T: m.jsonNumberText(rv.N)}
 			}
 			return "<T Value>"
 		}
@@ -859,6 +859,20 @@ func registerReflect(p *Program) {
 
 	reg("(reflect.Value).Bytes", func(m *Machine, fr *frame, args []Value) Value {
 		rv := rvOf(args[0])
+		if rv != nil && rv.N != nil && !rv.Wrapped && rv.Ptr == 0 {
+			// a typed slice whose element type is uint8
+			n := rv.N
+			c := m.Ctx
+			first := n.Elem(0)
+			isBytes := c.And(n.TagIs(TagArray), c.Eq(n.CRep, c.Int(CRepTyped)), first.TagIs(TagNumber), c.Eq(first.Rep, c.Int(RepUint8)))
+			m.require(m.simp(isBytes), "Bytes", "non-[]byte Value")
+			l := int(asInt64(m.concretize(SymInt{n.Len}, "reflect.Bytes.len")))
+			out := make([]Value, l)
+			for i := range out {
+				out[i] = m.uintVal(n.Elem(i).IVal)
+			}
+			return out
+		}
 		if rv == nil || rv.N != nil {
 			rpanic("Bytes", "non-[]byte Value")
 		}
@@ -1025,6 +1039,13 @@ func (m *Machine) jsonNumberText(n *Node) *smt.Term {
 	if m.jnTexts == nil {
 		m.jnTexts = map[*smt.Term]*Node{}
 	}
-	m.jnTexts[t] = n
+	if _, ok := m.jnTexts[t]; !ok {
+		m.jnTexts[t] = n
+		m.strAxioms(t)
+		c := m.Ctx
+		m.AddBase(c.Eq(m.rawRunes(t), m.rawBytes(t)))
+		m.AddBase(c.Le(c.Int(1), m.rawRunes(t)))
+		m.AddBase(c.Le(m.rawRunes(t), c.Int(30)))
+	}
 	return t
 }
